@@ -88,16 +88,21 @@ Definition kind_of (name : str) : N :=
   else if has_prefix (bs "sum_") name then 3%N
   else 9%N.
 
-Definition pct_ok (exact : bool) (xs : list Qc) (o : list (str * Z)) (e : str * Qc) : bool :=
-  existsb (fun oe =>
-    str_eqb (fst oe) (fst e) &&
+(* one model percentile entry against the observed entry of the same name (names are distinct:
+   "count_" ++ itoa p ... for the distinct keys p of the Go map); [sc] = (max|x|, sum|x|, sum x^2) *)
+Definition pct_ok (exact : bool) (sc : Qc * Qc * Qc) (o : list (str * Z)) (e : str * Qc) : bool :=
+  let '(smax, s1, s2) := sc in
+  match assoc_str (fst e) o with
+  | None => false
+  | Some ov =>
     match kind_of (fst e) with
-    | 0%N | 1%N => same (snd e) (snd oe)
-    | 2%N => near (scale_max xs) (snd e) (snd oe)
-    | 3%N => cmp exact (scale1 xs) (snd e) (snd oe)
-    | 4%N => cmp exact (scale2 xs) (snd e) (snd oe)
+    | 0%N | 1%N => same (snd e) ov
+    | 2%N => near smax (snd e) ov
+    | 3%N => cmp exact s1 (snd e) ov
+    | 4%N => cmp exact s2 (snd e) ov
     | _ => false
-    end) o.
+    end
+  end.
 
 (* histograms: canonical key (NaN keys all alike, -0 = +0), sorted *)
 Definition bkey (b : bound) : Z * Z :=
@@ -133,6 +138,9 @@ Definition check_case (c : c08case) : bool :=
   let xs := xs_of c in
   let ex := k_exact c in
   let n := length xs in
+  let smax := scale_max xs in
+  let s1 := scale1 xs in
+  let s2 := scale2 xs in
   forallb (fun vr => fin (fst vr) && f64_finite_pos (snd vr)) (k_points c) &&
   oracle_complete c &&
   match model_of c with
@@ -156,18 +164,18 @@ Definition check_case (c : c08case) : bool :=
         count_ok ex (t_sampled t) (o_count o)
         && cmp ex (t_sampled t) (t_sampled t) (o_sampled o)
         && near (t_persec t) (t_persec t) (o_persec o)
-        && near (scale_max xs) (t_mean t) (o_mean o)
-        && cmp (ex || Nat.odd n) (scale_max xs) (t_median t) (o_median o)
+        && near smax (t_mean t) (o_mean o)
+        && cmp (ex || Nat.odd n) smax (t_median t) (o_median o)
         && same (t_min t) (o_min o)
         && same (t_max t) (o_max o)
         && fin (o_stddev o)
-        && close (scale_max xs * scale_max xs) (t_var t) (Qc_of_bits (o_stddev o) * Qc_of_bits (o_stddev o))
-        && cmp ex (scale1 xs) (t_sum t) (o_sum o)
-        && cmp ex (scale2 xs) (t_sumsq t) (o_sumsq o)
+        && close (smax * smax) (t_var t) (Qc_of_bits (o_stddev o) * Qc_of_bits (o_stddev o))
+        && cmp ex s1 (t_sum t) (o_sum o)
+        && cmp ex s2 (t_sumsq t) (o_sumsq o)
         && forallb fin (o_values o)
         && list_eqb qeq (t_values t) (map Qc_of_bits (o_values o))
         && (Nat.eqb (length (o_pcts o)) (length (t_pcts t)))
-        && forallb (pct_ok ex xs (o_pcts o)) (t_pcts t)
+        && forallb (pct_ok ex (smax, s1, s2) (o_pcts o)) (t_pcts t)
   end.
 
 Definition explain_case (c : c08case) := (oracle_complete c, model_of c).
